@@ -128,7 +128,22 @@ for _n in LoggedMock._PUBLIC:
 
 
 def _wrap_events():
-    orig = MockProvider.events
+    raw = MockProvider.events
+
+    def orig(self):
+        # the mock's events() is a lazy generator: whatever public calls it makes on itself while it is being
+        # iterated (event filtering looks objects up) are provider internals, not engine calls -- they are neither
+        # logged nor faulted (a fault there would model a provider that loses an event after moving its own cursor)
+        it = raw(self)
+        while True:
+            self._vf_depth += 1
+            try:
+                ev = next(it)
+            except StopIteration:
+                return
+            finally:
+                self._vf_depth -= 1
+            yield ev
 
     def events(self):
         case = self._vf_case
